@@ -65,7 +65,8 @@ Definition scen_cmp (sc : scen) : Z :=
    bit 0 = every placement package found its order as created, bit 1 = the scenario's books and script are in the domain of the
    conservation theorem (no removed runner, no reconciled starting price, positive ladders), bit 2 = side condition of the
    acknowledgement-time theorem C07_run_ack_after_latency (must hold on EVERY scenario), bit 3 = side condition of the names theorem
-   C13_order_names_unique_in_every_reachable_state: every (market, name) used once, names below 1000 (must hold on EVERY scenario) *)
+   C13_order_names_unique_in_every_reachable_state: every (market, name) used once, names below 1000 (must hold on EVERY scenario), bit 4 = the static side conditions
+   of the *_static theorems (configuration, initial state, books incl. bet delays): with bit 3 they make bits 0 and 2 theorems *)
 Definition scen_hyp (sc : scen) : Z :=
   let scr := script_of (sc_script sc) in
   let g := run_guard_b tb_up (sc_cfg sc) (sc_nstrat sc) scr (sc_events sc) (sim0 (sc_markets sc))
@@ -74,4 +75,5 @@ Definition scen_hyp (sc : scen) : Z :=
   let a := run_ack_guard_b tb_up (sc_cfg sc) (sc_nstrat sc) scr (sc_events sc) (sim0 (sc_markets sc))
            && run_ack_guard_b tb_down (sc_cfg sc) (sc_nstrat sc) scr (sc_events sc) (sim0 (sc_markets sc)) in
   let k := keys_ok_b scr (sc_nstrat sc) (sc_events sc) in
-  (if g then 1 else 0) + (if d then 2 else 0) + (if a then 4 else 0) + (if k then 8 else 0).
+  let st := cfg_ok_b (sc_cfg sc) && initial_b (sim0 (sc_markets sc)) && forallb (event_b2 scr (sc_nstrat sc)) (sc_events sc) in
+  (if g then 1 else 0) + (if d then 2 else 0) + (if a then 4 else 0) + (if k then 8 else 0) + (if st then 16 else 0).
